@@ -109,6 +109,50 @@ def names_rule(ctx, facts, cfg):
                               site=t.get('at'), config=cfg)
     if len(rdata_calls) < 4:
         ctx.violation(rid, '<floor>', 'section walks', 'found %d uncompress_rdata call sites in the decompressor, expected 4' % len(rdata_calls), kind='below-floor')
+    # the expanding copier itself: copy_raw_name appends to its output only through copy_uncompressed_name; bytes taken straight from the
+    # packet are allowed only where the packet is known to hold no pointers
+    keys = facts.inst_keys('rr_iterator::TypedIterable::copy_raw_name')
+    if len(keys) < 2:
+        ctx.violation(rid, '<floor>', 'copy_raw_name instances', 'found %d instantiations of copy_raw_name, expected 2' % len(keys), kind='below-floor')
+    for key in keys:
+        g = facts.fns[key]
+        gdefs = F.single_defs(g)
+        gdom = F.dominators(g)
+        plain = set()
+        for gi, gb in F.blocks(g):
+            t = gb['term']
+            if t['k'] == 'switch':
+                e = F.expr(g, gdefs, t['discr'])
+                neg = False
+                while e[0] == 'unop' and e[1] == 'Not':
+                    neg = not neg
+                    e = e[2]
+                if F.is_load_of(e, 'parsed_packet::ParsedPacket', 'maybe_compressed'):
+                    plain |= {tb for v, tb in t['targets'] if (v == 0) != neg}
+        expands = any(b['term']['k'] == 'call' and (F.call_path(b['term']) or '').endswith('Compress::copy_uncompressed_name') for _, b in F.blocks(g))
+        raw_appends = []
+        for bi, b in F.blocks(g):
+            t = b['term']
+            if t['k'] == 'call' and (F.call_path(t) or '').split('::')[-1] in ('extend_from_slice', 'extend', 'push', 'append') and len(t['args']) > 1:
+                rs = F.roots(g, gdefs, t['args'][1])
+                for _ in range(3):      # look through sub-slicing: the receiver of an Index / get / split call is what matters
+                    nxt = []
+                    for r in rs:
+                        if r[0] == 'call' and ('ndex' in str(r[1]) or str(r[1]).split('::')[-1] in ('get', 'get_unchecked', 'split_at', 'as_slice', 'deref')) and r[2]['args']:
+                            nxt += F.roots(g, gdefs, r[2]['args'][0])
+                        else:
+                            nxt.append(r)
+                    rs = nxt
+                from_packet = any((r[0] == 'load' and any(fl[1] == 'packet' for fl in F.fields_of(r[1]))) or (r[0] == 'call' and str(r[1]).endswith('::packet')) for r in rs)
+                if from_packet and not any(pb in gdom.get(bi, ()) or pb == bi for pb in plain):
+                    raw_appends.append(t.get('at'))
+        ok = expands and not raw_appends
+        ctx.instance(rid, '%s: output produced by copy_uncompressed_name only (raw packet bytes appended at: %s)' % (key.split('@')[-1], raw_appends or 'nowhere'), ok=ok, site=g['at'])
+        if not expands:
+            ctx.violation(rid, key, 'no-expander', 'copy_raw_name no longer goes through Compress::copy_uncompressed_name', site=g['at'], config=cfg)
+        for at in raw_appends[:1]:
+            ctx.violation(rid, key, 'raw-bytes-appended', 'copy_raw_name appends bytes taken straight from the packet at %s on a path where the packet may hold compression pointers: '
+                          'a name ending in a pointer (whose low byte can be anything, 0 included) is copied with the pointer inside' % at, site=at, config=cfg)
 
 
 def run(ctx):
